@@ -147,6 +147,27 @@ func headerReaderRules(c *core.Ctx) {
 		if len(tests) != words {
 			problems = append(problems, fmt.Sprintf("%d of %d reads are judged", len(tests), words))
 		}
+		// as many reads as the header has words (reads in a loop stand for the table they walk)
+		if hs, ok := fn.Signature.Results().At(0).Type().Underlying().(*types.Struct); ok {
+			want := 0
+			for i := 0; i < hs.NumFields(); i++ {
+				switch ft := hs.Field(i).Type().Underlying().(type) {
+				case *types.Basic:
+					want++
+				case *types.Array:
+					want += int(ft.Len())
+				}
+			}
+			looped := false
+			for _, t := range tests {
+				if inLoopOf(t.blk) != nil {
+					looped = true
+				}
+			}
+			if !looped && words < want {
+				problems = append(problems, fmt.Sprintf("the parser reads %d words, the header has %d: success is answered for a header that was not read to its end", words, want))
+			}
+		}
 		c.Decide(len(problems) == 0, "C03-HDRREAD", key, pos, fmt.Sprintf("%d reads: a failed read ends in an error, success only after every read was found good", words), strings.Join(dedup(problems), "; "))
 
 		// NewHeaderFromBytes: refuses iff len(d) < header size, otherwise answers with the reader's result
